@@ -64,11 +64,14 @@ func runC08(cfg *config) *Report {
 	var files []*icl.File
 	var notes []string
 	for i := 0; i < n; i++ {
-		f, err := genFile(r, genOpts{maxCL: 2, maxBundles: 2, maxItems: 3, mutateP: 60})
+		f, err := genFile(r, genOpts{maxCL: 2, maxBundles: 2, maxItems: 3, mutateP: 60, sig7: i%4 == 2})
 		if err != nil {
 			continue
 		}
 		note := "text"
+		if i%4 == 2 {
+			note = "seven-bit-signature"
+		}
 		if i%8 == 4 {
 			// records 27 / 34 shorter than 80 bytes (image reference key shorter than 34 characters)
 			for _, cl := range f.CashLetters {
